@@ -313,6 +313,9 @@ def parameter_sets():
         # wins is never asked) must not disturb the entries listed after it
         out.append(op("remap_columns", source_columns=["trial_type"], destination_columns=["kind"],
                       map_list=[["c", "x1"], ["c", "x2"], ["a", "first"], ["b", "second"]], ignore_missing=ig))
+        # destination values that contain quote characters are written as they stand
+        out.append(op("remap_columns", source_columns=["trial_type"], destination_columns=["kind"],
+                      map_list=[["a", "don't respond"], ["b", "\"hold\""]], ignore_missing=ig))
         # two source columns whose values concatenate to the same text for different rows ('a' + '12' and 'a1' + '2')
         out.append(op("remap_columns", source_columns=["trial_type", "code"], destination_columns=["kind"],
                       map_list=[["a", 12, "first"], ["a1", 2, "second"], ["b", 1, "third"]], ignore_missing=ig))
